@@ -111,8 +111,13 @@ def check(ctx):
             for setattr_, field, expr, lp in sw:
                 nb += 1
                 ln = gcfg.node_of(lp.iter)
-                extra = [ast.unparse(t) for t, lab in (gcfg.guards_of(ln) if ln is not None else [])
-                         if not (ast.unparse(t) in (f"{param} != self.{fld}", f"self.{fld} != {param}") and lab == "T")]
+                def changed_guard(t, lab):
+                    """the guard says `new value != cached field` (written as != taken, or == not taken, either way round)"""
+                    if not (isinstance(t, ast.Compare) and len(t.ops) == 1 and isinstance(t.ops[0], (ast.Eq, ast.NotEq))):
+                        return False
+                    sides = {ast.unparse(t.left), ast.unparse(t.comparators[0])}
+                    return sides == {param, f"self.{fld}"} and (isinstance(t.ops[0], ast.NotEq)) == (lab == "T")
+                extra = [ast.unparse(t) for t, lab in (gcfg.guards_of(ln) if ln is not None else []) if not changed_guard(t, lab)]
                 ctx.ob("C14.c", f"{cname}.{pname}.setter propagates whenever the value changes", not extra,
                        "" if not extra else f"the propagation to the registered tensors is additionally conditioned on {extra}: for some new values the component "
                        f"reports the new {pname} while its records keep the old configuration", s.where, lp)
